@@ -204,7 +204,9 @@ def const_neighbor(z, y, above=False, span=1.):
     if above:
         x = np.array([z + span, z + 2. * span])
     else:
-        x = np.array([z - span, z + span])
+        # z is the first node: the interpolation weight is exactly 0 and interp1d returns y bit for bit
+        # (with z strictly inside the interval scipy's linear formula can be off by one ulp)
+        x = np.array([z, z + span])
     return interp1d(x, np.vstack((y, y)).transpose())
 
 
